@@ -89,9 +89,9 @@ func gpgAlgorithmName(a packet.PublicKeyAlgorithm, h crypto.Hash) string {
 	case packet.PubKeyAlgoDSA:
 		return names.DSA + "/" + h.String()
 	case packet.PubKeyAlgoECDSA:
-		return names.ECDSA
+		return names.ECDSA + "/" + h.String()
 	case packet.PubKeyAlgoEdDSA:
-		return names.EdDSA
+		return names.EdDSA + "/" + h.String()
 	case packet.PubKeyAlgoRSA, packet.PubKeyAlgoRSASignOnly:
 		return names.RSA + "/" + h.String()
 	default:
